@@ -130,11 +130,21 @@ let replay proto (c0 : cfg) (evs : (int * str) list) : cfg =
   List.iteri (fun i (g, kind) ->
     let where = Printf.sprintf "i=%d:g=%d" i g in
     if g >= n then raise (Sched_fail ("nogoroutine:" ^ where));
+    (* an EXCLUSIVE lock taken where the model takes the shared one is a stronger protocol, not another one: whenever the
+       exclusive lock was granted the shared one would have been, so the model follows with its shared section (the schedules
+       such an implementation can show are a subset of the model's). The converse - shared where the model is exclusive - is
+       rejected. *)
+    let next_kind () =
+      match List.nth_opt !c.g_threads g with
+      | Some t -> (match next_ev t with Some e -> kind_of_ev e | None -> "")
+      | None -> "" in
     match kind with
     | "RLock" -> step_one where g "RLock"; held.(g) <- 1
-    | "Lock" -> step_one where g "Lock"; held.(g) <- 2
+    | "Lock" -> if next_kind () = "RLock" then step_one where g "RLock" else step_one where g "Lock"; held.(g) <- 2
     | "RUnlock" -> drain where g; step_one where g "RUnlock"; held.(g) <- 0
-    | "Unlock" -> drain where g; step_one where g "Unlock"; held.(g) <- 0
+    | "Unlock" -> drain where g;
+      if held.(g) = 2 && next_kind () = "RUnlock" then step_one where g "RUnlock" else step_one where g "Unlock";
+      held.(g) <- 0
     | _ ->
       if held.(g) = 0 then raise (Sched_fail (Printf.sprintf "unprotected:%s:kind=%s" where kind)))
     evs;
